@@ -46,7 +46,7 @@ pub mod syn {
     pub struct Variant { pub fields: Fields }
     }
     impl Clone for Type { #[verifier::external_body] fn clone(&self) -> Self { unimplemented!() } }
-    impl Clone for Expr { #[verifier::external_body] fn clone(&self) -> Self { unimplemented!() } }
+    impl Clone for Expr { #[verifier::external_body] fn clone(&self) -> (r: Self) ensures r == *self { unimplemented!() } }
     impl Clone for Path { #[verifier::external_body] fn clone(&self) -> Self { unimplemented!() } }
     impl Clone for WherePredicate { #[verifier::external_body] fn clone(&self) -> Self { unimplemented!() } }
     impl core::fmt::Debug for Error { #[verifier::external_body] fn fmt(&self, _f: &mut core::fmt::Formatter<'_>) -> core::fmt::Result { Ok(()) } }
